@@ -60,7 +60,7 @@ def is_tealer_class(c: Any) -> bool:
 
 
 def is_tealer_function(f: Any) -> bool:
-    return inspect.isfunction(f) and getattr(f, "__module__", "").startswith("tealer")
+    return inspect.isfunction(f) and getattr(f, "__module__", "").startswith(("tealer", "selftest."))   # selftest: vf/selftest.py
 
 
 # ------------------------------------------------------------------------------------------------
